@@ -63,6 +63,7 @@ type c37Op struct {
 	Delta  int64    `json:"d,omitempty"`  // timestamp = parent timestamp + Delta ...
 	AtExp  int      `json:"at,omitempty"` // ... unless AtExp>0 and the expiry of pool cert AtExp-1 is a legal timestamp: then exactly that expiry
 	Certs  []c37Ref `json:"c,omitempty"`
+	CopyOf int      `json:"copy,omitempty"` // verify: if >0, take the exact certificate list of the (CopyOf-1)-th block (mod) ever inserted, whatever its fork
 	Store  []int    `json:"s,omitempty"`
 	Which  int      `json:"w,omitempty"` // accept: which verified child of the last accepted block
 }
@@ -73,6 +74,10 @@ type c37Case struct {
 	Pool   []int64 `json:"pool"` // absolute expiries of the certificate pool
 	Ops    []c37Op `json:"ops"`
 }
+
+// c37FindingBlockID: Block embeds BlockHeader without a `serialize` tag, so block
+// bytes and id cover only the certificate list.
+const c37FindingBlockID = "dsmr-block-id-omits-header"
 
 const (
 	c37MaxDelta     = 64 // far below x/dsmr's maxTimeSkew (30e9)
@@ -118,6 +123,9 @@ func c37Gen(rt *rapid.T) c37Case {
 			op.Delta = rapid.SampledFrom([]int64{1, 1, 1, 1, 2, 2, 3, 5, 8, 13, c.Window, c.Window + 1}).Draw(rt, "delta")
 			if rapid.IntRange(0, 4).Draw(rt, "atexp?") == 0 {
 				op.AtExp = rapid.IntRange(1, k).Draw(rt, "atexp")
+			}
+			if op.Kind == "verify" && rapid.IntRange(0, 7).Draw(rt, "copy?") == 0 {
+				op.CopyOf = rapid.IntRange(1, 12).Draw(rt, "copyof")
 			}
 			if op.Kind == "verify" {
 				n := rapid.SampledFrom([]int{1, 1, 2, 2, 3, 4}).Draw(rt, "ncerts")
@@ -198,12 +206,15 @@ type c37World struct {
 	index   *fxChainIndex
 	last    *c37Blk
 	live    []*c37Blk // last accepted block and its verified descendants, oldest first
+	all     []*c37Blk // every block that ever verified, in insertion order (genesis excluded)
 	pending map[int]bool
 	exec    map[ids.ID]uint64 // executed chunk id -> height
 	headers map[ids.ID]dsmr.BlockHeader
-	st      *vstat.Stats
-	labels  map[string]bool
-	nt      bool
+	// set once two different blocks with one id are in the chain index
+	collision string
+	st        *vstat.Stats
+	labels    map[string]bool
+	nt        bool
 }
 
 func (w *c37World) label(l string) { w.labels[l] = true }
@@ -325,7 +336,11 @@ func (w *c37World) tryBlock(ctx context.Context, parent *c37Blk, blk dsmr.Block,
 	if parent != w.live[len(w.live)-1] {
 		w.label("fork")
 	}
+	w.index.lookups = 0
 	err := w.node.Verify(ctx, parent.blk, blk)
+	if w.index.cycled {
+		return fmt.Errorf("Verify's ancestor walk does not terminate: more than %d chain-index lookups in one call with %d blocks in the index", w.index.maxLookups, len(w.index.blocks))
+	}
 	desc := fmt.Sprintf("%s block height %d timestamp %d parent-timestamp %d certs %v (expiries %v), window %d, last accepted height %d timestamp %d",
 		origin, blk.Height, blk.Timestamp, parent.blk.Timestamp, certs, w.expiries(certs), w.c.Window, w.last.blk.Height, w.last.blk.Timestamp)
 	switch {
@@ -348,22 +363,30 @@ func (w *c37World) tryBlock(ctx context.Context, parent *c37Blk, blk dsmr.Block,
 	// A chain index is keyed by block id, so ids must identify blocks. x/dsmr derives
 	// the id from the marshalled Block, whose embedded BlockHeader carries no
 	// `serialize` tag: blocks with equal certificate lists share an id whatever their
-	// parent, height and timestamp (finding "dsmr-block-id-omits-header", reported
-	// separately; with two such blocks in one index the ancestries are silently
-	// swapped and the window's ancestor walk can cycle forever). Verify does not look
-	// at the id of the block it is given, so the verdict above is unaffected; only
-	// the insertion of a second block under an id that is already taken is excluded.
+	// parent, height and timestamp (finding c37FindingBlockID). Verify does not look
+	// at the id of the block it is given, so the verdict above is unaffected. What
+	// happens next follows the known-finding protocol: while the finding is listed as
+	// known, exactly the insertion of a second, different block under a taken id is
+	// excluded; otherwise the block goes into the index the way any id-keyed index
+	// would take it (the entry is replaced) and the run continues against the model's
+	// true ancestry - a swapped ancestry then shows up as a wrong Verify verdict or as
+	// an ancestor walk that never ends (cut off by the index's lookup budget).
 	if prev, ok := w.headers[blk.GetID()]; ok {
 		if prev == blk.BlockHeader {
 			w.st.Skip("identical-block-again")
-		} else {
-			w.st.Exclude("dsmr-block-id-omits-header")
-			w.label("excluded-insertion-block-id-collision")
+			return nil
 		}
-		return nil
+		if w.st.Known(c37FindingBlockID) {
+			w.st.Exclude(c37FindingBlockID)
+			w.label("excluded-insertion-block-id-collision")
+			return nil
+		}
+		w.label("block-id-collision-inserted")
+		w.collision = fmt.Sprintf("blocks (height %d, timestamp %d) and (height %d, timestamp %d) have different parents/heights/timestamps but the same id %s", prev.Height, prev.Timestamp, blk.Height, blk.Timestamp, blk.GetID())
 	}
 	nb := &c37Blk{blk: blk, parent: parent, certs: certs}
 	w.live = append(w.live, nb)
+	w.all = append(w.all, nb)
 	w.index.add(blk)
 	w.headers[blk.GetID()] = blk.BlockHeader
 	return nil
@@ -400,6 +423,7 @@ func c37Run(c c37Case, st *vstat.Stats) error {
 		return fmt.Errorf("harness: %w", err)
 	}
 	w.index = newFxChainIndex()
+	w.index.maxLookups = 10000
 	w.index.add(genesis)
 	w.headers[genesis.GetID()] = genesis.BlockHeader
 	tvw, err := validitywindow.NewTimeValidityWindow[fxItem](ctx, logging.NoLog{}, trace.Noop, w.index, dsmr.NewValidityWindowBlock(genesis), func(int64) int64 { return c.Window })
@@ -419,6 +443,9 @@ func c37Run(c c37Case, st *vstat.Stats) error {
 	w.live = []*c37Blk{w.last}
 
 	runErr := w.interpret(ctx)
+	if runErr != nil && w.collision != "" {
+		runErr = fmt.Errorf("%w [root cause candidate: dsmr block ids omit the header - %s]", runErr, w.collision)
+	}
 
 	labels := make([]string, 0, len(w.labels))
 	for l := range w.labels {
@@ -464,6 +491,14 @@ func (w *c37World) interpret(ctx context.Context) error {
 					}
 				default:
 					certs = append(certs, r.I%len(c.Pool))
+				}
+			}
+			if op.CopyOf > 0 {
+				if len(w.all) == 0 {
+					w.st.Skip("copy-without-blocks")
+				} else {
+					certs = append([]int(nil), w.all[(op.CopyOf-1)%len(w.all)].certs...)
+					w.label("certificate-list-copied-from-another-block")
 				}
 			}
 			cc := make([]*dsmr.ChunkCertificate, len(certs))
@@ -512,7 +547,11 @@ func (w *c37World) interpret(ctx context.Context) error {
 			if hadIncluded {
 				w.label("build-storage-has-already-included")
 			}
+			w.index.lookups = 0
 			blk, err := w.node.BuildBlock(ctx, parent.blk, ts)
+			if w.index.cycled {
+				return fmt.Errorf("op %d: BuildBlock's ancestor walk does not terminate: more than %d chain-index lookups in one call with %d blocks in the index", n, w.index.maxLookups, len(w.index.blocks))
+			}
 			if err != nil {
 				if errors.Is(err, dsmr.ErrNoAvailableChunkCerts) {
 					w.label("build-nothing-available")
@@ -631,6 +670,9 @@ func c37Render(c c37Case) map[string]any {
 					cs = append(cs, fmt.Sprint(r.I))
 				}
 			}
+			if o.CopyOf > 0 {
+				cs = []string{fmt.Sprintf("copy-of-block%d", o.CopyOf-1)}
+			}
 			ops[i] = fmt.Sprintf("verify(p-%d,+%d,at%d,[%s])", o.Parent, o.Delta, o.AtExp, strings.Join(cs, ","))
 		case "build":
 			ops[i] = fmt.Sprintf("build(p-%d,+%d,at%d)", o.Parent, o.Delta, o.AtExp)
@@ -643,7 +685,7 @@ func c37Render(c c37Case) map[string]any {
 	return map[string]any{"window": c.Window, "base": c.Base, "pool_expiries": c.Pool, "ops": strings.Join(ops, " ")}
 }
 
-const c37Rule = "op lists (3..22 of verify / accept / store / build) growing a tree of DSMR blocks on one dsmr.Node with a real TimeValidityWindow, real ChunkStorage and one validator whose key the harness holds (every certificate really signed); pool of 3..8 certificates with expiries around the block timestamps (plus 0, -1, far future, MaxInt64), re-used from ancestors, duplicated inside a block, timestamps placed exactly on expiries, forks, windows 3..40; oracle = ancestor walk to genesis without window: Verify must reject iff repeat in block / repeat of any ancestor / expiry < timestamp, must accept otherwise when all expiries <= timestamp+window; BuildBlock output never in the reject class; executed chunk ids distinct over the accepted chain; non-trivial = a block re-using a certificate of an ACCEPTED ancestor after an accepted block's timestamp passed that certificate's expiry (evicted from the accepted set); distinct by the whole case"
+const c37Rule = "op lists (4..30 of verify / accept / store / build) growing a tree of DSMR blocks on one dsmr.Node with a real TimeValidityWindow, real ChunkStorage and one validator whose key the harness holds (every certificate really signed); pool of 4..10 certificates with expiries around the block timestamps (plus 0, -1, far future, MaxInt64), re-used from ancestors, duplicated inside a block, timestamps placed exactly on expiries, forks, windows 3..40; oracle = ancestor walk to genesis without window: Verify must reject iff repeat in block / repeat of any ancestor / expiry < timestamp, must accept otherwise when all expiries <= timestamp+window; BuildBlock output never in the reject class; executed chunk ids distinct over the accepted chain; non-trivial = a block re-using a certificate of an ACCEPTED ancestor after an accepted block's timestamp passed that certificate's expiry (evicted from the accepted set); distinct by the whole case"
 
 func TestC37(t *testing.T) {
 	st := vstat.New(t, "C37", c37Rule)
